@@ -95,6 +95,13 @@ CHECKS = {
             "the same SQLite file at quiescent points; action results, messages, events, creations, transitions, task data/outcomes/prev/hooks compared op by op",
             "Observational equivalence of the continued run is decided on the engine, not proved; the theorems only rule out a field that cannot survive. Cuts are taken at "
             "quiescent points with an empty queue; timeouts, generated acts and sub-processes are not in these workloads (C15/C16/C19 cover them without cuts).", "5 C12"),
+    "C13": ("Lean 4 K3 theorems (the projection of any interleaving of a product of per-process machines onto one pid is that process's solo run; schedule independence; "
+            "untouched processes keep their state; a write-through cache with arbitrary evictions is transparent, and the hypothesis is needed; second start refused) + "
+            "projection monitor: crowds of 2..64 concurrently started and concurrently answered processes, cache capacity 1..1024, 1..8 worker threads, both back ends, "
+            "each process's message multiset / events / action results / final rows compared with the same process run alone",
+            "That the engine is a product of per-process machines behind a write-through cache is exactly what the projections test; thread-level atomicity is outside the "
+            "model. Workloads are schedule-independent by construction (conditions read start inputs, every act writes names of its own) because a process whose parallel "
+            "branches race on one variable has no single solo outcome to compare with.", "5 C13"),
     "C17": ("Lean 4 K3 theorems on the row model (removeProc deletes exactly the task and process rows of that pid and no message; removals commute; removal iff "
             "!keep_processes from the translated rule; actions on a removed process are refused first; rm_model removes exactly its events) + monitor on the rows of "
             "all collections after every operation of interleaved workloads, both keep settings, both back ends",
